@@ -105,6 +105,14 @@ func checkC05(c *Ctx) {
 	}, "R05.2", "Failover.Get:background-result-under-own-key", []string{"R04.4"}, "BackendWrite", "ErrorsWrite")
 	// "until FailedUpdateTTL (minus jitter) has elapsed": the jitter a Write applies is the documented T + J·T·(r − 1/2) (C10 R10.2)
 	c.borrowKinds("C10", func() { c.c10Jitter() }, "R05.6", "Trait.TTL:jitter", []string{"R10.2"}, "jitter-formula", "rand-count", "jitter-untested", "jitter-when-disabled")
+	// "the error is served from the failure cache" — to the Gets waiting on the key lock as well: an owner that leaves with the cached
+	// failure publishes it (C02 R02.2), else its waiters receive a zero value with a nil error
+	for _, sib := range siblings {
+		if fo := c.failover(sib); fo.Err == nil {
+			fo := fo
+			c.borrowKinds("C02", func() { c.c02Sibling(fo) }, "R05.4", sib+".Get:cached-failure-published", []string{"R02.2"}, "ErrorsRead-error")
+		}
+	}
 	c.c05FailureCacheKept()
 }
 
